@@ -78,6 +78,8 @@ pub mod zvt {
             pub fn into_stream_with_retry(input: packets::ReadCard, src: &mut crate::stream::TcpStream, retry: crate::VRetry, timeout: crate::VDuration) -> (s: crate::VStream<ReadCardResponse>)
                 ensures
                     final(src).cfg() == old(src).cfg(),
+                    final(src).pending_drop() == old(src).pending_drop(),
+                    final(src).reused_bad() == (old(src).reused_bad() || old(src).pending_drop()),
                     final(src).log() == old(src).log().push(crate::stream::Exch {
                         req: crate::stream::Req::ReadCard(input, retry, timeout),
                         items: crate::stream::AnyItems::ReadCard(s.rest()),
@@ -128,12 +130,31 @@ pub mod stream {
     impl TcpStream {
         pub uninterp spec fn cfg(&self) -> Config;
         pub uninterp spec fn log(&self) -> Seq<Exch>;
+        /// an error item was delivered and the stream has not been polled since: stream.rs tears the failed
+        /// connection down only when it is resumed after that item (U8 verifies that it then does)
+        pub uninterp spec fn pending_drop(&self) -> bool;
+        /// an exchange was started while a failed connection was still installed
+        pub uninterp spec fn reused_bad(&self) -> bool;
         #[verifier::external_body]
         pub fn config(&self) -> (r: &Config) ensures *r == self.cfg() { unimplemented!() }
     }
 }
 use crate::config::Config;
 use crate::stream::{TcpStream, Exch, Req, AnyItems};
+impl<T> VStream<T> {
+    /// `stream.next().await` on the stream that owns `src` (N17)
+    #[verifier::external_body]
+    pub fn next_on(&mut self, src: &mut TcpStream) -> (r: Option<Result<T>>)
+        ensures
+            old(self).rest().len() == 0 ==> r is None && final(self).rest() == old(self).rest(),
+            old(self).rest().len() > 0 ==> r == Some(old(self).rest()[0]) && final(self).rest() == old(self).rest().skip(1),
+            final(src).cfg() == old(src).cfg(), final(src).log() == old(src).log(),
+            final(src).reused_bad() == old(src).reused_bad(),
+            final(src).pending_drop() == (r matches Some(Err(_))),
+    { unimplemented!() }
+}
+/// C09 at the client level: no failed connection is left installed, none was reused
+pub open spec fn clean(c: &Feig) -> bool { !c.socket.pending_drop() && !c.socket.reused_bad() }
 
 //@ include u6_client.tpl
 //@ include u6_props.tpl
